@@ -165,3 +165,31 @@ func H_validFile() {
 	verifAssert(err == nil && node != nil, "harness: validFile does not parse")
 	verifObserveInt("len", len(validFile))
 }
+
+
+// H_parseRace (C09): happens-before check of every heap access during a parse: the scanner
+// goroutine and the parser share memory only through the token channel.
+func H_parseRace(v int) {
+	ins := []string{validFile, "{namespace a}\n/** @param x */\n{template .b}\n{$x ^}\n{/template}\n", "{namespace a}\n{template .b}\n{call .t data=\"1 + ) 2\"/}", "", "{"}
+	verifRaceTrack(true)
+	if v < len(ins) {
+		SoyFile("x.soy", ins[v])
+	} else {
+		Expr([]string{"1 + 2 * $a.b[0]", "1 2 3", "f(", "'a' ~"}[v-len(ins)])
+	}
+	verifRaceTrack(false)
+	verifAssert(verifLiveGoroutines() == 0, "C18: scanner goroutine still alive after the parse returned")
+}
+
+// H_raceSelftest: a deliberately racy use of the lexer (machinery self-test: must be reported).
+func H_raceSelftest() {
+	verifRaceTrack(true)
+	l := lex("x", "{namespace a}\n{template .b}\nhello\n{/template}\n")
+	n := 0
+	for it := l.nextItem(); it.typ != itemEOF && it.typ != itemError; it = l.nextItem() {
+		n += int(l.pos) // unsynchronised read of a field the scanner goroutine keeps writing
+	}
+	l.drain()
+	verifRaceTrack(false)
+	verifObserveInt("n", n)
+}
